@@ -450,9 +450,9 @@ SCALAR_TAGS_RICH = ["decimal", "fraction", "complex", "bytes", "bytearray", "byt
 HASHABLE_KEY_TAGS = ["str", "int", "bool", "decimal", "date", "uuid", "bytes", "float"]
 
 
-def st_enum_spec(counter):
-    @st.composite
-    def make(draw):
+@st.composite
+def st_enum_spec(draw, counter):
+    if True:
         base = draw(st.sampled_from(["Enum", "Enum", "IntEnum", "StrEnum", "str_Enum", "Flag", "IntFlag"]))
         n = draw(st.integers(1, 4))
         names = ["A", "B", "C", "D"][:n]
@@ -469,12 +469,11 @@ def st_enum_spec(counter):
                                  min_size=n, max_size=n, unique_by=lambda v: (v == 1, v) if v in (1, True) else v))
             members = [[nm, v] for nm, v in zip(names, vals)]
         return ["enum", {"name": f"E{next(counter)}", "base": base, "members": members}]
-    return make()
 
 
-def st_literal_spec(counter, strict_only_lookalikes: bool):
-    @st.composite
-    def make(draw):
+@st.composite
+def st_literal_spec(draw, counter, strict_only_lookalikes: bool):
+    if True:
         kind = draw(st.sampled_from(["ints", "strs", "mixed", "bools", "bytes", "enum", "many", "lookalike"]))
         if kind == "ints":
             vals = draw(st.lists(st.sampled_from([0, 1, 2, 5, -1, 100]), min_size=1, max_size=3, unique=True))
@@ -509,7 +508,6 @@ def st_literal_spec(counter, strict_only_lookalikes: bool):
         else:
             vals = draw(st.lists(st.sampled_from([0, 2, "a", "b", None, 7]), min_size=1, max_size=4, unique=True))
         return ["literal", vals]
-    return make()
 
 
 class TypeGen:
